@@ -174,6 +174,8 @@ pub fn units(prop: &str, tier: Tier) -> Option<Vec<Unit>> {
             vec![
                 class("k01-contract", &en::k01(), pick(3, 4)).len(pick(4, 5)).alarm(alarm).lazy().unit(),
                 class("kext-contract", &en::k_ext(), pick(3, 4)).len(pick(4, 5)).alarm(alarm).lazy().unit(),
+                class("kext-contract-emptyerr", &en::k_ext(), pick(3, 4)).cfg(CfgId::Empty).probes(NOPROBE).alarm(alarm).lazy().unit(),
+                class("k01-contract-cheap", &en::k01(), pick(3, 3)).cfg(CfgId::Cheap).probes(NOPROBE).alarm(alarm).lazy().unit(),
                 e1("k02-contract", "repeated()/separated_by() templates".into(), {
                     let mut v = en::k02_rep(false);
                     v.extend(en::k02_sep(false));
@@ -316,6 +318,21 @@ pub fn units(prop: &str, tier: Tier) -> Option<Vec<Unit>> {
                     .probes(NOPROBE)
                     .pairs(PairMode::Exact)
                     .unit(),
+                e1("kmemo-deep-pairs", format!("every Kmemo grammar with <= {} nodes x every non-empty subset of nodes wrapped in memoized(), vs the plain grammar", pick(5, 6)), {
+                    let gs = en::k_memo().upto(pick(5, 6));
+                    let mut out = vec![];
+                    for g in &gs {
+                        let n = g.size() as u32;
+                        for mask in 1..(1u32 << n) {
+                            out.push(g.clone());
+                            out.push(en::decorate(g, mask, &wrap_memo));
+                        }
+                    }
+                    out
+                })
+                .probes(NOPROBE)
+                .pairs(PairMode::Exact)
+                .unit(),
                 rec_unit("leftrec", tier),
             ]
         }
@@ -375,6 +392,7 @@ pub fn units(prop: &str, tier: Tier) -> Option<Vec<Unit>> {
             for (n, c) in [("rich", CfgId::Rich), ("simple", CfgId::Simple), ("cheap", CfgId::Cheap), ("empty", CfgId::Empty)] {
                 v.push(class(&format!("kext-{n}"), &en::k_ext(), pick(3, 4)).cfg(c).probes(NOPROBE).alarm(alarm).unit());
                 v.push(class(&format!("k01-{n}"), &en::k01(), pick(3, 3)).cfg(c).probes(NOPROBE).alarm(alarm).unit());
+                v.push(class(&format!("ktot-{n}"), &en::k_tot(), pick(5, 6)).alpha(&['a', 'b'], pick(3, 4)).cfg(c).probes(NOPROBE).alarm(alarm).unit());
             }
             v
         }
